@@ -631,9 +631,14 @@ class Check:
         cov.update(self.extra)
         ev = dict(property_id=self.pid, tier=self.tier, seed=self.seed, level=self.level, coverage=cov,
                   assumptions=self.assumptions, wall_s=round(wall, 2), violations=len(self.violations))
-        os.makedirs(os.path.join(VERIF, "evidence"), exist_ok=True)
-        with open(os.path.join(VERIF, "evidence", self.pid + ".json"), "w") as f:
+        # evidence under /verif describes runs against /repo itself; a run against another tree (VERIF_REPO: seeded
+        # changes, scratch worktrees) keeps its evidence in its own work directory
+        evdir = os.path.join(VERIF, "evidence") if os.path.realpath(REPO) == "/repo" else os.path.join(WORK, "evidence")
+        os.makedirs(evdir, exist_ok=True)
+        tmp = os.path.join(evdir, ".%s.%d.tmp" % (self.pid, os.getpid()))
+        with open(tmp, "w") as f:
             json.dump(ev, f, indent=1, default=str)
+        os.replace(tmp, os.path.join(evdir, self.pid + ".json"))
         for k in self.known_hits:
             log("KNOWN-FINDING: property=%s %s" % (self.pid, k.get("what", k["id"])))
         if self.violations:
